@@ -34,7 +34,14 @@ GAS_NAMES = ['H2', 'N2', 'NH3', 'CO', 'CO2', 'CH4', 'H2O', 'O2', 'C2H4', 'C2H6',
              'AR', 'HE', 'N2O', 'C3H8', 'HCN', 'H2S', 'SO2', 'CH2O']
 FRAGMENTS = ['H', 'N', 'O', 'C', 'OH', 'NH', 'NH2', 'NH3', 'CO', 'CH', 'CH2', 'CH3', 'CH4', 'N2', 'H2O',
              'COOH', 'HCO', 'CH3O', 'C2H4', 'C2H5', 'O2', 'CN', 'NO2', 'C-O', 'CH3_CH2', 'CHO', 'C2H2',
-             'C2H3', 'CCH3', 'OOH', 'NNH', 'N2H2', 'N2H4', 'CH2OH', 'C3H7', 'HCOO', 'C2H6', 'NH2OH', 'CH3OH']
+             'C2H3', 'CCH3', 'OOH', 'NNH', 'N2H2', 'N2H4', 'CH2OH', 'C3H7', 'HCOO', 'C2H6', 'NH2OH', 'CH3OH',
+             'cis-HCOOH', 'trans-HCOOH', 'CO-OH', 'CH3-CH2', 'iso-C3H7', 'H-COO', 'n_C4H9']
+# names for the wrapped-list histories: punctuation that is legal inside a CTI / YAML name
+WRAP_SPECIAL = ['cis-HCOOH(S)', 'trans-HCOOH(S)', 'CO-OH(S)', 'CH3-CH2(S)', 'iso-C3H7(S)', 'n-C4H9(S)', 'H-COO(S)',
+                'O-O(S)', 't-BuO(S)', 'HO-CO(S)', 'C-O(S)', 'N-N(S)', 'CH3_CH2(S)', 'a_b-c(S)', 'x-y-z(S)']
+WRAP_FILLERS = ['PT(S)', 'H(S)', 'O(S)', 'OH(S)', 'H2O(S)', 'CO(S)', 'CO2(S)', 'COOH(S)', 'HCOO(S)', 'CHO(S)',
+                'CH2O(S)', 'CH3O(S)', 'CH3OH(S)', 'C(S)', 'CH(S)', 'CH2(S)', 'CH3(S)', 'CH4(S)', 'N(S)', 'NH(S)',
+                'NH2(S)', 'NH3(S)', 'N2(S)', 'NO2(S)']
 METALS = ['Pt', 'Ni', 'Cu', 'Fe']
 BEP_NAMES = ['C-H', 'N-H', 'O-H', 'C-C', 'C-O', 'NH-H', 'NH2-H', 'N-N']
 SURF_TAGS = ['T', 'S', 'X1', 'F']
@@ -103,6 +110,14 @@ def gen_model(rng, tier, **force):
     # (NASA-9 species in CTI, molecule-based lateral interactions, unnamed BEPs, site-before-gas
     # adsorption, YAML keyword names) so that every clause keeps being evaluated on complete files
     profile = force.pop('profile', None) or rng.choice(['plain', 'hostile'])
+    if force.get('populate') is None:
+        force['populate'] = rng.choice(['construct', 'organize', 'incremental', 'moved'])
+    if force['populate'] == 'moved':
+        # species are moved between coexisting phases before the files are written: needs reactions on
+        # gas + interface(s) and complete files
+        profile = 'plain'
+        force.setdefault('layout', rng.choice(['g+s+s', 'g+b+s+s', 'g+s', 'g+b+s', 'g+s+s']))
+        force.setdefault('n_reactions', rng.choice([4, 6, 10, 16]))
     if profile == 'plain':
         force.setdefault('kinds_w', rng.choice([[6, 0, 2], [8, 0, 0], [4, 0, 4]]))
         force.setdefault('site_first_p', 0.0)
@@ -114,7 +129,7 @@ def gen_model(rng, tier, **force):
     parts = layout.split('+')
     units_as = force.get('units_as') or rng.choice(['object', 'object', 'dict', 'none'])
     units = dict(DEFAULT_UNITS) if units_as == 'none' else (force.get('units') or gen_units(rng))
-    populate = force.get('populate') or rng.choice(['construct', 'organize', 'incremental'])
+    populate = force.get('populate') or rng.choice(['construct', 'organize', 'incremental', 'moved'])
     kinds_w = force.get('kinds_w') or rng.choice([[6, 0, 2], [5, 3, 2], [4, 3, 3], [8, 0, 0], [2, 6, 2]])
     kind_of = lambda: rng.choices(['Nasa', 'Nasa9', 'Shomate'], kinds_w)[0]
 
@@ -298,7 +313,76 @@ def gen_model(rng, tier, **force):
             'to_file': rng.random() < 0.25}
     if populate == 'incremental':
         spec['ops'] = gen_fill_ops(rng, phases)
+    if populate == 'moved':
+        gen_moves(rng, spec)
     return spec
+
+
+def gen_moves(rng, spec):
+    """Displace a few species into another coexisting phase object of the same type (another phase of
+    the model, or a scratch phase that is not written) and generate the operations that move them to
+    their phase, in the order add-then-remove or remove-then-add.  Preferred: surface reactants of
+    reactions whose A is computed, and the gas reactant of an adsorption."""
+    phases = spec['phases']
+    ptype = {p['name']: p['type'] for p in phases}
+    home = {n: p['name'] for p in phases for n in p['species']}
+    gas = {n for p in phases if p['type'] == 'IdealGas' for n in p['species']}
+    surf = {n for p in phases if p['type'] == 'InteractingInterface' for n in p['species']}
+    non_ads = [r for r in spec['reactions'] if not r['is_adsorption']]
+    if non_ads and not any(r['A'] is None for r in non_ads):
+        rng.choice(non_ads)['A'] = None
+    c_surf = sorted({n for r in non_ads if r['A'] is None for n, _ in r['reactants'] if n in surf})
+    c_gas = sorted({n for r in spec['reactions'] if r['is_adsorption'] for n, _ in r['reactants'] if n in gas})
+    chosen, tags = [], {}
+    for n in rng.sample(c_surf, min(len(c_surf), rng.randint(1, 2))):
+        chosen.append(n)
+        tags[n] = 'surface_reactant_computed_A'
+    if c_gas:
+        n = rng.choice(c_gas)
+        chosen.append(n)
+        tags[n] = 'gas_sticking_species'
+    rest = sorted(set(home) - set(chosen))
+    for n in rng.sample(rest, min(len(rest), rng.randint(0, 2))):
+        chosen.append(n)
+        tags[n] = 'other'
+    init = {p['name']: list(p['species']) for p in phases}
+    scratch = {}
+    where = {}
+    for n in chosen:
+        P = home[n]
+        same = [p['name'] for p in phases if p['type'] == ptype[P] and p['name'] != P]
+        if same and rng.random() < 0.6:
+            Q = rng.choice(same)
+        else:
+            Q = 'old_' + ptype[P]
+            scratch.setdefault(Q, {'type': ptype[P], 'name': Q})
+            init.setdefault(Q, [])
+        init[P].remove(n)
+        init[Q].insert(rng.randint(0, len(init[Q])), n)
+        where[n] = Q
+    cur = {k: list(v) for k, v in init.items()}
+    ops, moves = [], []
+    order = list(chosen)
+    rng.shuffle(order)
+    for n in order:
+        P, Q = home[n], where[n]
+        how = rng.choice(['add_first', 'add_first', 'remove_first'])
+        add = ['append', P, n] if rng.random() < 0.6 else ['extend', P, [n]]
+        r = rng.random()
+        if r < 0.15 and cur[Q] == [n]:
+            rem = ['clear', Q]
+        elif r < 0.55:
+            rem = ['pop', Q, cur[Q].index(n)]
+        else:
+            rem = ['remove', Q, n]
+        ops.extend([add, rem] if how == 'add_first' else [rem, add])
+        cur[Q].remove(n)
+        cur[P].append(n)
+        moves.append({'species': n, 'from': Q, 'to': P, 'order': how, 'removal': rem[0], 'role': tags[n]})
+    spec['init_phases'] = init
+    spec['scratch'] = [scratch[k] for k in sorted(scratch)]
+    spec['ops'] = ops
+    spec['moves'] = moves
 
 
 def gen_fill_ops(rng, phases):
@@ -345,14 +429,26 @@ def gen_fill_ops(rng, phases):
 
 
 # ------------------------------------------------------------------ history
-def gen_history(rng, tier):
-    n_pool = rng.randint(3, 10)
+def gen_history(rng, tier, **force):
+    flavour = force.get('flavour') or rng.choices(['plain', 'wrap'], [4, 1])[0]
+    names = None
+    if flavour == 'wrap':
+        # long species lists with hyphenated / underscored names: the CTI writer has to wrap them
+        n_pool = rng.randint(12, 30)
+        nsp = rng.randint(2, min(8, n_pool - 4))
+        names = rng.sample(WRAP_SPECIAL, nsp) + rng.sample(WRAP_FILLERS, min(len(WRAP_FILLERS), n_pool - nsp))
+        n_pool = len(names)
+        rng.shuffle(names)
+    else:
+        n_pool = rng.randint(3, 10)
     n_ph = rng.choice([1, 2, 2, 3, 3, 4])
     types = ['InteractingInterface', 'InteractingInterface', 'IdealGas', 'StoichSolid']
     phases = []
     for k in range(n_ph):
         t = rng.choice(types)
         init = None if rng.random() < 0.6 else rng.sample(range(n_pool), rng.randint(0, min(3, n_pool)))
+        if flavour == 'wrap' and k == 0:
+            init = rng.sample(range(n_pool), rng.randint(max(8, n_pool - 6), n_pool))
         phases.append({'type': t, 'name': 'ph%d' % k, 'init': init})
     # 1..n_ph exist from the start, the rest are created by a 'new' operation
     n_start = rng.randint(1, n_ph)
@@ -360,7 +456,8 @@ def gen_history(rng, tier):
     live = list(range(n_start))
     model = {k: list(phases[k]['init'] or []) for k in live}
     ops = []
-    n_ops = rng.randint(3, 14)
+    moves = {'add_first': 0, 'remove_first': 0}
+    n_ops = rng.randint(3, 14) if flavour == 'plain' else rng.randint(1, 5)
     while len(ops) < n_ops or pending:
         if pending and (len(ops) >= n_ops or rng.random() < 0.25):
             k = pending.pop(0)
@@ -369,7 +466,8 @@ def gen_history(rng, tier):
             model[k] = list(phases[k]['init'] or [])
             continue
         p = rng.choice(live)
-        kind = rng.choices(['append', 'extend', 'remove', 'pop', 'clear'], [6, 4, 3, 3, 1])[0]
+        kind = rng.choices(['append', 'extend', 'remove', 'pop', 'clear', 'move'],
+                           [6, 4, 3, 3, 1 if flavour == 'plain' else 0, 4])[0]
         if kind == 'append':
             i = rng.randrange(n_pool)
             ops.append(['append', p, i])
@@ -389,8 +487,26 @@ def gen_history(rng, tier):
         elif kind == 'clear':
             ops.append(['clear', p])
             model[p] = []
-    return {'kind': 'history', 'pool': n_pool, 'phases': phases, 'n_start': n_start, 'ops': ops,
-            'units': gen_units(rng), 'emit': rng.random() < 0.7}
+        elif kind == 'move' and len(live) >= 2 and model[p]:
+            # move one species from phase p to another coexisting phase q
+            q = rng.choice([k for k in live if k != p])
+            i = rng.choice(model[p])
+            how = rng.choice(['add_first', 'remove_first'])
+            add = ['append', q, i] if rng.random() < 0.6 else ['extend', q, [i]]
+            r = rng.random()
+            if r < 0.15 and model[p] == [i]:
+                rem = ['clear', p]
+            elif r < 0.55:
+                rem = ['pop', p, model[p].index(i)]
+            else:
+                rem = ['remove', p, i]
+            ops.extend([add, rem] if how == 'add_first' else [rem, add])
+            model[p].remove(i)
+            model[q].append(i)
+            moves[how] += 1
+    return {'kind': 'history', 'flavour': flavour, 'pool': n_pool, 'names': names, 'phases': phases,
+            'n_start': n_start, 'ops': ops, 'moves': moves, 'units': gen_units(rng),
+            'emit': True if flavour == 'wrap' else rng.random() < 0.7}
 
 
 # ------------------------------------------------------------------ reactor
